@@ -197,14 +197,8 @@ def mSegsF : Nat → UInt8 → Bytes → List Seg
 def mSegs (s : Bytes) : List Seg := mSegsF s.length 0 s
 
 /-! ### placeholders -/
-def decAux : Nat → Nat → Bytes → Bytes
-  | 0, _, acc => acc
-  | f + 1, n, acc =>
-    let acc' := (48 + (n % 10).toUInt8) :: acc
-    if n / 10 = 0 then acc' else decAux f (n / 10) acc'
-
-/-- `%d`. -/
-def dec (n : Nat) : Bytes := decAux (n + 1) n []
+/-- `%d`: decimal digits of `n` as bytes. -/
+def dec (n : Nat) : Bytes := (Nat.toDigits 10 n).map (fun c => c.toNat.toUInt8)
 
 def pfxStr : Bytes := [95, 95, 83, 84, 82, 95]                 -- "__STR_"
 def pfxIdent : Bytes := [95, 95, 73, 68, 69, 78, 84, 95]       -- "__IDENT_"
